@@ -26,6 +26,10 @@ type Config struct {
 	HardSec     int // per-case hard bound in seconds; default 120
 	SoftSec     int
 	Env         []string // extra environment for workers
+	// RaceLogs: the workers are built with -race and write their reports to
+	// {OUT}/race.<pid> (GORACE log_path); the driver turns every report block
+	// into a violation of kind "race".
+	RaceLogs bool
 }
 
 var configs = map[string]Config{}
@@ -201,6 +205,29 @@ func Drive(o DriverOpts) int {
 	}
 	merged.Violations = append(merged.Violations, extra...)
 	merged.NViol += int64(len(extra))
+
+	if cfg.RaceLogs {
+		files, _ := filepath.Glob(filepath.Join(outDir, "race.*"))
+		seenKey := map[string]bool{}
+		for _, fn := range files {
+			b, err := os.ReadFile(fn)
+			if err != nil {
+				continue
+			}
+			for _, blk := range RaceBlocks(string(b)) {
+				key := RaceKey(blk)
+				if seenKey[key] {
+					continue
+				}
+				seenKey[key] = true
+				if len(blk) > 3500 {
+					blk = blk[:3500] + "…"
+				}
+				merged.Violations = append(merged.Violations, Violation{Kind: "race", Witness: "race:" + key, Stratum: "race-log", Detail: "data race reported by the race detector (" + filepath.Base(fn) + ")\n" + blk})
+				merged.NViol++
+			}
+		}
+	}
 
 	// known findings
 	var known KnownFile
